@@ -13,6 +13,8 @@ from . import simrun as R
 from . import sim_check as SC
 from . import esis_lib as L
 
+CLAIM_MORE = "ALSO (coq/Props/C13x.v): the refinement is unconditional on two decidable domains with an explicit fuel computed from the inputs — (A) finite tmax and durations >= delta > 0, (B) finite rule tables with any tmax incl. infinity — and fast_nonMarkov_SIS terminates within that fuel there; a budget oracle on the implementation's queue events turns a loop that runs on into a violation instead of a hang."
+
 CLAIM = dict(
     text="Machine-checked theorems (coq/Props/C13.v) over an executable model of fast_nonMarkov_SIS written as the code is (myQueue ordered by "
          "(time, counter) dropping times >= tmax, stored tails of delay lists, the two pruning sites status[v]=='I' / time > rec_time[target], "
